@@ -263,7 +263,7 @@ pub fn run(ctx: &Ctx) -> (Acc, String, bool) {
     };
     let fixed_total = (fixed.len() * ins.len()) as u64;
     let loops: u64 = 9 * 8;
-    let random_total: u64 = ctx.pick(30_000, 1_500_000);
+    let random_total: u64 = ctx.pick(400_000, 20_000_000);
     let seed = ctx.seed;
     let cfg = GenCfg::default();
     let acc = run_cases(ctx, ex_total + loops + random_total + fixed_total, |i, acc| {
